@@ -33,12 +33,16 @@ def add_rejections(h):
     install_store_models(h, I)
     in_memory = h.choice(2) == 1
     h.ctx.named['in_memory'] = z3.BoolVal(in_memory)
+    fresh = False
     if in_memory:
-        n = 2
+        # a store that already holds trajectories, or a brand-new one (nothing added yet: its identifier mode is still open)
+        fresh = h.choice(2) == 1
+        h.ctx.named['fresh_store'] = z3.BoolVal(fresh)
+        n = 0 if fresh else 2
         cache = make_cache(h, I, in_memory=True)
         for k in range(n):
             cache.attrs['__entries__'].append((k, TrajRec(ROW(z3.IntVal(k)), schema=7)))
-        st = make_store(h, I, 'CREATE', None, cache, next_index=n, indexable=False, in_memory=True)
+        st = make_store(h, I, 'CREATE', None, cache, next_index=n, indexable=(None if fresh else False), in_memory=True)
         f = None
         length0 = z3.IntVal(n)
     else:
@@ -53,7 +57,10 @@ def add_rejections(h):
     rows0 = f.rows if f is not None else None
     entries0 = list(cache.attrs['__entries__'])
     kind = h.choice(3)
+    if fresh:
+        kind = 2            # a new store takes its field sets and its use of flight identifiers from the first trajectory: only a missing required value is invalid for it
     h.ctx.named['rejection_kind'] = z3.IntVal(kind)
+    indexable0 = st.attrs.get('indexable')
     if kind == 0:
         t = FieldedTraj(h.int('new_traj_id'), schema=8)              # other field sets
     elif kind == 1:
@@ -80,6 +87,8 @@ def add_rejections(h):
         h.ensure('rejected-addition-leaves-next-index', to_z3(h.getattr(st, '_next_index')) == to_z3(length0) if not in_memory
                  else to_z3(h.getattr(st, '_next_index')) == n, note=repr(e.inst))
         h.ensure('rejected-addition-leaves-cache', cache.attrs['__entries__'] == entries0, note=repr(e.inst))
+        h.ensure('rejected-addition-leaves-the-identifier-mode', st.attrs.get('indexable') is indexable0,
+                 note=f'indexable {indexable0!r} -> {st.attrs.get("indexable")!r} after {e.inst!r}')
         if f is not None:
             q = h.ctx.fresh('any_index', z3.IntSort())
             h.ensure('rejected-addition-leaves-every-row', z3.And(to_z3(f.length) == length0,
@@ -267,6 +276,28 @@ def replay_add(payload):
                     if len(r) != len(model):
                         problems.append(f'reopen shows {len(r)} rows, expected {len(model)}')
             TrajectoryStore.active_in_thread = None
+        # a brand-new store: its first addition is rejected; it must still accept either kind of trajectory afterwards
+        for in_memory in (False, True):
+            for with_id in (True, False):
+                TrajectoryStore.active_in_thread = None
+                path = os.path.join(tmp, f'fresh-{in_memory}-{with_id}.nc')
+                ts = TrajectoryStore.create() if in_memory else TrajectoryStore.create(base_file=path)
+                bad = _mk(60, fid=(None if with_id else 9))
+                del bad._data['starting_mass']
+                try:
+                    ts.add(bad)
+                    problems.append('missing required value accepted by a new store')
+                except Exception:   # noqa
+                    pass
+                try:
+                    ts.add(_mk(0, fid=(5 if with_id else None)))
+                except Exception as e:   # noqa
+                    problems.append(f'{"in-memory" if in_memory else "file"} store: after a rejected first addition a valid trajectory '
+                                    f'{"with" if with_id else "without"} a flight id is refused: {type(e).__name__}: {e}')
+                try:
+                    ts.close()
+                except Exception:   # noqa
+                    pass
         return dict(reproduced=bool(problems), observed=problems[:6], required='rejected additions leave the store unchanged')
     finally:
         TrajectoryStore.active_in_thread = None
